@@ -78,6 +78,59 @@ Definition pa_step (p : text) (allowed : list text) (loc : option acl) : list te
 Definition principals_allowed (L : lineage) (p : text) : list text :=
   fold_left (pa_step p) (rev L) [].
 
+(* ---- malformed inputs (OUTSIDE the property's quantifier; hand-written extension, validated by a correspondence stream,
+   not regenerated: the translated fragment has no exceptions).  What the loop of permits() does with
+     XAclNone   __acl__ = None, or a FALSY callable that is not iterable (`if acl and callable(acl)` does not call it):
+                `for ace in acl` raises TypeError when the walk reaches the location
+     XBad       an ACE that is not a 3-sequence: the unpacking raises ValueError / TypeError when the scan reaches it
+   (a falsy callable that IS iterable is scanned as it is, i.e. as the static ACL its iteration yields -- it is never
+   called; an empty one is an empty ACL: XAcl []) *)
+Inductive xace := XGood (e : ace) | XBad.
+Inductive xloc := XNoAttr | XAclNone | XAcl (a : list xace).
+Inductive xdecision := XDec (d : decision) | XRaised.
+Inductive xres := XNoMatch | XHit (b : bool) (i : nat) | XRaise.
+
+Fixpoint xscan_acl (principals : list text) (p : text) (a : list xace) (i : nat) : xres :=
+  match a with
+  | [] => XNoMatch
+  | XBad :: _ => XRaise
+  | XGood e :: r =>
+      if ace_matches principals p e then XHit (match act e with Allow => true | _ => false end) i
+      else xscan_acl principals p r (S i)
+  end.
+
+Fixpoint permits_x_from (d : nat) (L : list xloc) (principals : list text) (p : text) : xdecision :=
+  match L with
+  | [] => XDec DefaultDeny
+  | XNoAttr :: r => permits_x_from (S d) r principals p
+  | XAclNone :: _ => XRaised
+  | XAcl a :: r =>
+      match xscan_acl principals p a 0 with
+      | XHit true i => XDec (Allowed d i)
+      | XHit false i => XDec (Denied d i)
+      | XRaise => XRaised
+      | XNoMatch => permits_x_from (S d) r principals p
+      end
+  end.
+Definition permits_x := permits_x_from 0.
+
+(* the well-formed part the walk sees before the first malformed item, and whether there is such an item *)
+Fixpoint trunc_acl (a : list xace) : acl * bool :=
+  match a with
+  | [] => ([], false)
+  | XBad :: _ => ([], true)
+  | XGood e :: r => let '(t, b) := trunc_acl r in (e :: t, b)
+  end.
+Fixpoint trunc (L : list xloc) : lineage * bool :=
+  match L with
+  | [] => ([], false)
+  | XNoAttr :: r => let '(t, b) := trunc r in (None :: t, b)
+  | XAclNone :: _ => ([], true)
+  | XAcl a :: r =>
+      let '(ta, ba) := trunc_acl a in
+      if ba then ([Some ta], true) else let '(t, b) := trunc r in (Some ta :: t, b)
+  end.
+
 (* ---- declarative specification (the property's wording) *)
 Definition flatten (L : lineage) : list ace :=
   concat (map (fun o => match o with Some a => a | None => [] end) L).
@@ -115,34 +168,36 @@ Definition explicitly_allowed (L : lineage) (p q : text) : bool :=
 Definition wf_action (e : ace) : bool := match act e with Other => false | _ => true end.
 Definition wf_lineage (L : lineage) : bool := forallb wf_action (flatten L).
 
-(* ---- the public routes from a request to the decision (pyramid/security.py; hand-written, tied by the name-blanked
-   shape pins of harness/c11/pins_entry.json).
-   request.has_permission(permission, context=None):
-       if context is None: context = self.context
-       policy = _get_security_policy(self)            -- registry.queryUtility(ISecurityPolicy)
-       if policy is None: return Allowed('No security policy in use.')
-       return policy.permits(self, context, permission)
-   LegacySecurityPolicy.permits(request, context, permission):
-       principals = authn.effective_principals(request); return authz.permits(context, principals, permission)
-   security.principals_allowed_by_permission(context, permission):
-       policy = registry.queryUtility(IAuthorizationPolicy)
-       if policy is None: return [Everyone]
-       return policy.principals_allowed_by_permission(context, permission)
-   [policy] / [authz]: is a security policy / an authorization policy registered; [ps]: what the authentication policy
-   reports as effective principals; the authorization policy is ACLAuthorizationPolicy (regenerated delegation). *)
-Inductive hp_result := ByPolicy (d : decision) | NoPolicyAllowed.
+(* ---- the public routes from a request to the decision (pyramid/security.py).  Hand-written REFERENCE; the
+   regenerated program is gen_has_permission / gen_legacy_permits / gen_sec_principals_allowed /
+   gen_view_execution_permitted (harness/c11/translate_entry.py), proved equal in Proofs/C11_char.v. *)
+Definition legacy_permits (L : lineage) (ps : list text) (p : text) : decision := permits L ps p.
 
-Definition legacy_permits (L : lineage) (ps : list text) (p : text) : decision := gen_policy_permits L ps p.
-
-Definition has_permission (policy : bool) (given : option lineage) (request_context : lineage)
+Definition has_permission (R : registry) (given : option lineage) (request_context : lineage)
            (ps : list text) (p : text) : hp_result :=
   let L := match given with None => request_context | Some L => L end in
-  if policy then ByPolicy (legacy_permits L ps p) else NoPolicyAllowed.
+  if has_policy R then ByPolicy (legacy_permits L ps p) else NoPolicyAllowed.
 
 Definition hp_granted (r : hp_result) : bool := match r with ByPolicy d => granted d | NoPolicyAllowed => true end.
 
-Definition sec_principals_allowed (authz : bool) (L : lineage) (p : text) : list text :=
-  if authz then gen_policy_principals_allowed L p else [everyone].
+Definition sec_principals_allowed (R : registry) (L : lineage) (p : text) : list text :=
+  if has_authz R then principals_allowed L p else [everyone].
+
+Definition view_execution_permitted (R : registry) (L : lineage) (ps : list text) : vep_result :=
+  match secured_view R with
+  | Some v => view_permitted (fun perm => legacy_permits L ps perm) v
+  | None => if plain_view R then VAllowedNoPermission else VTypeError
+  end.
+
+(* the permission view_execution_permitted ends up asking for (None: no ACL decision is taken) *)
+Definition vep_permission (R : registry) : option text :=
+  match secured_view R with
+  | Some (SOne perm) => Some perm
+  | Some (SMulti subs) => match find (fun s : bool * option text => fst s) subs with Some (_, o) => o | None => None end
+  | None => None
+  end.
+Definition vep_granted (r : vep_result) : option bool :=
+  match r with VDecision d => Some (granted d) | VAllowedNoPermission | VTrue => Some true | _ => None end.
 
 (* ---- pyramid.location.lineage: hand-written reference ([gen_lineage] is the regenerated program) *)
 Definition step_parent (W : world) (x : nat) : option nat :=
@@ -199,6 +254,30 @@ Definition put_decision (d : decision) : val :=
   | DefaultDeny => VL [VI 0]
   end.
 
+Definition put_vep (r : vep_result) : val :=
+  match r with
+  | VDecision d => put_decision d
+  | VAllowedNoPermission => VL [VI 1; VT [110; 111; 45; 112; 101; 114; 109]%N]        (* "no-perm" *)
+  | VTrue => VL [VI 1; VT [116; 114; 117; 101]%N]                                       (* "true" *)
+  | VTypeError => VL [VT [69; 88; 67]%N; VT [84; 121; 112; 101; 69; 114; 114; 111; 114]%N]     (* EXC TypeError *)
+  | VPredicateMismatch => VL [VT [69; 88; 67]%N; VT [80; 114; 101; 100; 105; 99; 97; 116; 101; 77; 105; 115; 109; 97; 116; 99; 104]%N]
+  end.
+Definition get_sub (v : val) : option (bool * option text) :=
+  match v with
+  | VL [b; VT p] => olet b := get_bool b in Some (b, Some p)
+  | VL [b] => olet b := get_bool b in Some (b, None)
+  | _ => None
+  end.
+(* the view configuration of the case: 0 = no view at all; 1 = a view without permission; [p] = one secured view;
+   [[ok; p]; [ok]; ..] = a MultiView *)
+Definition get_views (v : val) : option (option sview * bool) :=
+  match v with
+  | VI 0%Z => Some (None, false)
+  | VI _ => Some (None, true)
+  | VT p => Some (Some (SOne p), false)
+  | VL l => match map_opt get_sub l with Some subs => Some (Some (SMulti subs), false) | None => None end
+  end.
+
 Definition put_hp (r : hp_result) : val :=
   match r with ByPolicy d => put_decision d | NoPolicyAllowed => VL [VI 1; VT [110; 111; 45; 112; 111; 108; 105; 99; 121]%N] end.
 
@@ -211,7 +290,10 @@ Definition put_hp (r : hp_result) : val :=
 Definition run_C11 (v : val) : val :=
   ret_or_bad (
     match v with
-    | VL [l; ps; p; root] =>
+    | VL [l; ps; p; root; views] =>
+        olet vw := get_views views in
+        let R := mkReg true true (fst vw) (snd vw) in
+        let R0 := mkReg false false None false in
         olet L0 := get_lineage l in olet ps := get_texts ps in olet p := get_text p in
         olet e := (match root with VI 0%Z => Some PNone | VI 1%Z => Some PMissing | _ => None end) in
         (* the lineage the code scans is the one the REGENERATED lineage() yields in the world of the case *)
@@ -225,8 +307,12 @@ Definition run_C11 (v : val) : val :=
                   vtexts (principals_allowed L p);
                   put_decision (gen_policy_permits L ps p);
                   vtexts (gen_policy_principals_allowed L p);
-                  put_hp (has_permission true None L ps p);
-                  put_hp (has_permission false None L ps p);
-                  vtexts (sec_principals_allowed false L p)])
+                  put_hp (gen_has_permission R None L ps p);
+                  put_hp (gen_has_permission R0 None L ps p);
+                  vtexts (gen_sec_principals_allowed R0 L p);
+                  put_hp (gen_has_permission R (Some L) [] ps p);
+                  vtexts (gen_sec_principals_allowed R L p);
+                  put_vep (gen_view_execution_permitted R L ps);
+                  vopt vbool (match vep_permission R with Some q => Some (spec_granted L ps q) | None => None end)])
     | _ => None
     end).
